@@ -325,10 +325,11 @@ def referenced_names(st, only_paths=None):
     return ref
 
 
-def run_case(ctx, binp, fx, pre, group, tag, kill_sample=0, rng=None, big=False):
+def run_case(ctx, binp, fx, pre, group, tag, kill_sample=0, rng=None, big=False, followups=None):
     """returns a Case with everything the monitor and the correspondence need (or raises)"""
     c = Case()
     c.pre, c.group, c.tag = pre, group, tag
+    c.followups = followups or []
     wd = os.path.join(ctx.tmp, "case-" + tag)
     os.makedirs(wd)
     base = os.path.join(wd, "base")
@@ -406,7 +407,7 @@ def recover_and_redo(ctx, binp, c, i, mode="prune"):
     copy_tree(sn, rd)
     rc, out = serve(binp, rd, noprune=(mode == "noprune"))
     rst = proj_state(binp, rd)
-    obs = run_ops_on(ctx, binp, rd, c.group, noapi=getattr(c, "big", False))   # (showing a 100 MB license layer 24 times in parallel is too much)
+    obs = run_ops_on(ctx, binp, rd, c.group + c.followups, noapi=getattr(c, "big", False))   # (showing a 100 MB license layer 24 times in parallel is too much)
     shutil.rmtree(rd, ignore_errors=True)
     return {"rc": rc, "out": out, "state": rst, "mode": mode}, obs
 
@@ -456,7 +457,6 @@ def monitor_case(c):
     others = {p for p in base_m if fold(tuple(p.split("/"))) not in inv}
     keep_blobs = referenced_names(c.base_state, others)
     bb = {b["name"]: b for b in c.base_state["blobs"]}
-    c.skip_redo_corr = set()
     for j, (i, rec, redo) in enumerate(zip(c.rec_state, c.recovered, c.redone)):
         st = c.states[i]
         rst = rec["state"]
@@ -469,6 +469,10 @@ def monitor_case(c):
                             "after a crash at prefix %d of %s and restart, %s %s: changing one model changes the other" % (
                                 i, kinds, e.get("path") or e.get("name"),
                                 ("is a symbolic link to %s" % e["symlink"]) if e.get("symlink") is not None else ("shares its inode with %s" % e["linked"])), i))
+        have = {(l["path"], bool(l.get("dangling"))) for l in rst.get("links", [])}
+        for l in c.base_state.get("links", []):
+            if (l["path"], bool(l.get("dangling"))) not in have:
+                out.append(({"class": "link-removed", "op": kinds}, "a crash at prefix %d of %s and restart removed or replaced the symbolic link %s" % (i, kinds, l["path"]), i))
         # every name that resolves to a readable manifest has all layers present and intact
         for m in rst["manifests"]:
             if m["readable"]:
@@ -485,7 +489,17 @@ def monitor_case(c):
             if nm in bb and rb.get(nm) != bb[nm]:
                 out.append(({"class": "crash-frame-blob", "op": kinds}, "crash in %s + restart removed/altered blob %s of a model not involved" % (kinds, nm), i))
         # repeating the operation succeeds (or reports it already took effect) and gives the uninterrupted result
-        last = redo[-1]
+        # the repeated operation and what the user does next (operations on sibling tags): every step judged by C04's step
+        # monitor — every readable manifest complete, models the step is not about untouched
+        before_step = rst
+        for si, (op_, ob_) in enumerate(zip(c.group + c.followups, redo)):
+            for sig_, what_ in c04.monitor_step(op_, before_step, ob_):
+                if sig_.get("class") in ("listed-incomplete", "frame-blob", "frame-manifest") and not sig_.get("own_create"):
+                    out.append((dict(sig_, stage="redo" if si < len(c.group) else "follow-up", interrupted=kinds, restart=mode),
+                                "after a crash at prefix %d of %s, a restart (%s) and %s: %s" % (
+                                    i, kinds, mode, "the repeated operation" if si < len(c.group) else "a following %s" % op_["op"], what_), i))
+            before_step = ob_["state"]
+        last = redo[len(c.group) - 1]
         ok = all(res_class(o, ob) == "ROk" or (o["op"] == "delete" and res_class(o, ob) == "RNotFound") for o, ob in zip(c.group, redo))
         ref_ok = all(res_class(o, ob) == "ROk" for o, ob in zip(c.group, c.ref_obs))
         selfref = any(o["op"] == "create" and o.get("from") and fold(parse_name(o["from"])) == fold(parse_name(o["name"])) for o in c.group)
@@ -497,10 +511,6 @@ def monitor_case(c):
         respelled = any(tuple(p.split("/")) not in req_names for p in torn_paths)
         part_records = part_record_state(rst)
         torn_rec = part_records == "torn"
-        if ref_ok and not ok and part_records in ("torn", "inconsistent") and any(o["op"] == "pull" for o in c.group):
-            # the model describes the repaired Prepare (fixes/C12-torn-part-record.patch); where the code still fails on a torn
-            # part record the repeated pull is not compared with the model
-            c.skip_redo_corr.add(j)
         if ref_ok and not ok:
             out.append(({"class": "redo-fails", "op": kinds, "self_referential": selfref, "torn_manifest": torn, "part_records": part_records,
                          "restart": mode},
@@ -561,12 +571,10 @@ def render_case(fx, c):
         else:
             items.append(("chk_recover", "chk_recover TBL %s %s" % (states[i], rc)))
     for j, (rc, redo, rec) in enumerate(zip(recs, c.redone, c.recovered)):
-        if j in getattr(c, "skip_redo_corr", ()):
-            continue
         # the oracle inputs of the repeated operation are read off the repeated run itself
         before = rec["state"]
         ops2, steps = [], []
-        for op, o in zip(c.group, redo):
+        for op, o in zip(c.group + c.followups, redo):
             for b in o["state"]["blobs"]:
                 ids.size.setdefault(ids.h(b["sha"]), b["size"])
             steps.append("(MkStep %s %s %s)" % (act_to_coq(ids, fx, op, before, o["state"]), res_class(op, o), cq_store(ids, o["state"])))
@@ -585,10 +593,20 @@ def gen_pre(rng, fx):
     b = fx.data[k]
     d = "sha256:" + sha(b)
     n1 = c04.rnd_name(rng, [], 0)
-    pre = [{"op": "blob", "digest": d, "data": b.hex(), "_fx": k},
-           {"op": "create", "name": n1, "files": {"model.gguf": d}, "_fx": k}]
+    pre = []
+    if rng.random() < 0.35:
+        # a layout with symbolic links: the host / namespace / model directory of the first model (or blobs/) is a link to a
+        # directory elsewhere; maybe a dangling link next to it
+        h1, ns1, m1, _ = parse_name(n1)
+        cands = [("dir", h1), ("dir", h1 + "/" + ns1), ("dir", h1 + "/" + ns1 + "/" + m1), ("blobs", ""), ("dangling", h1 + "/ghost-ns")]
+        picked = rng.sample(cands, rng.randint(1, 2))
+        picked.sort(key=lambda x: x[1].count("/"))
+        pre += [{"op": "linkdir", "kind": kd, "path": pth} for kd, pth in picked]
+    pre += [{"op": "blob", "digest": d, "data": b.hex(), "_fx": k},
+            {"op": "create", "name": n1, "files": {"model.gguf": d}, "_fx": k}]
     if rng.random() < 0.5:
         pre[-1]["system"] = rng.choice(c04.SYSTEMS)
+    blobs_linked = any(o["op"] == "linkdir" and o["kind"] == "blobs" for o in pre)
     used = [n1]
     for _ in range(rng.randint(0, 2)):
         n2 = c04.rnd_name(rng, used, 0.2)
@@ -603,8 +621,8 @@ def gen_pre(rng, fx):
         pre.append({"op": "copy", "src": rng.choice(used), "dst": n3})
         used.append(n3)
     tail = c04.gen_history(rng, fx, rng.randint(0, 3), "mixed")
-    pre += [o for o in tail if o["op"] not in ("startup", "delete", "legacy") or (o["op"] != "legacy" and rng.random() < 0.3)]
-    if rng.random() < 0.25:
+    pre += [o for o in tail if o["op"] not in ("startup", "delete", "legacy", "linkdir") or (o["op"] not in ("legacy", "linkdir") and rng.random() < 0.3)]
+    if rng.random() < 0.25 and not blobs_linked:   # (old-version store behind a linked blobs/: C04's corpus, known finding until fixBlobs is repaired)
         # the crash hits a store an older version left: the restart has to run fixBlobs for real
         pre.append(c04.gen_legacy(rng, fx, [k]))
     elif rng.random() < 0.25:
@@ -618,6 +636,48 @@ def recase(rng, name):
     body, tag = name.rsplit(":", 1)
     parts = [x.swapcase() if rng.random() < 0.4 else x for x in body.split("/")]
     return "/".join(parts) + ":" + (tag.swapcase() if rng.random() < 0.3 else tag)
+
+
+def gen_family(rng, fx):
+    """several tags of ONE model (one directory) that share layers; the operation to interrupt (re)writes the tag that sorts
+    first (mostly), FROM a sibling or as a copy of it; afterwards the user works on the siblings"""
+    k = rng.choice(["g0", "g1", "gt"])
+    b = fx.data[k]
+    d = "sha256:" + sha(b)
+    base = rng.choice(["fam", "ns/fam", "example.com/ns/Fam", "NS/m"])
+    tags = sorted(rng.sample(["a", "b", "c", "d", "t", "v2"], rng.randint(2, 4)))
+    src = rng.choice(tags[1:])
+    target = tags[0] if rng.random() < 0.8 else rng.choice(tags)
+    pre = [{"op": "blob", "digest": d, "data": b.hex(), "_fx": k},
+           {"op": "create", "name": "%s:%s" % (base, src), "files": {"model.gguf": d}, "_fx": k, "system": rng.choice(c04.SYSTEMS)}]
+    for t in tags:
+        if t == src or (t == target and rng.random() < 0.5):
+            continue
+        if rng.random() < 0.5:
+            op = {"op": "create", "name": "%s:%s" % (base, t), "from": "%s:%s" % (base, src)}
+            for kk, pool in (("system", c04.SYSTEMS), ("template", c04.TEMPLATES), ("parameters", c04.PARAMS)):
+                if rng.random() < 0.4:
+                    op[kk] = rng.choice(pool)
+            pre.append(op)
+        else:
+            pre.append({"op": "copy", "src": "%s:%s" % (base, src), "dst": "%s:%s" % (base, t)})
+    if rng.random() < 0.7:
+        group = [{"op": "create", "name": "%s:%s" % (base, target), "from": "%s:%s" % (base, src), "system": rng.choice(c04.SYSTEMS + ["family system"])}]
+        if rng.random() < 0.4:
+            group[0]["parameters"] = rng.choice(c04.PARAMS)
+    else:
+        group = [{"op": "copy", "src": "%s:%s" % (base, src), "dst": "%s:%s" % (base, target)}]
+    follow = []
+    for _ in range(rng.randint(1, 2)):
+        r = rng.random()
+        sib = rng.choice(tags)
+        if r < 0.4:
+            follow.append({"op": "delete", "name": "%s:%s" % (base, sib)})
+        elif r < 0.8:
+            follow.append({"op": "create", "name": "%s:%s" % (base, rng.choice(tags + ["z"])), "from": "%s:%s" % (base, src), "system": rng.choice(c04.SYSTEMS)})
+        else:
+            follow.append({"op": "copy", "src": "%s:%s" % (base, src), "dst": "%s:%s" % (base, sib)})
+    return pre, group, follow
 
 
 def gen_group(rng, fx, klass, state):
@@ -691,25 +751,28 @@ def run(ctx):
     rng = ctx.rng
     plan = []
     n = 28 if ctx.quick() else 400
-    classes = ["delete", "copy", "create-from", "create-files"]
+    classes = ["delete", "copy", "create-from", "create-files", "family", "create-from", "family"]
     for i in range(n):
         plan.append(classes[i % len(classes)])
     plan += ["pull"] * (3 if ctx.quick() else 40)
     if not ctx.quick():
         plan += ["pull-big"] * 1   # a layer of two download parts (> 100 MB, all-zero body): monitor only
-    pres = [gen_pre(rng, fx) for _ in plan]
+    fams = {i: gen_family(rng, fx) for i, k in enumerate(plan) if k == "family"}
+    pres = [fams[i][0] if i in fams else gen_pre(rng, fx) for i, _ in enumerate(plan)]
     pobs, err = c04.run_histories(ctx, binp, pres, noapi=True)
     if pobs is None:
         ctx.obligation("harness c04 answered every store-building history", False, err)
         ctx.proof_failures.append({"obligation": "correspondence: harness c04 did not answer", "detail": err})
         return
-    cases = [(k, pre, gen_group(rng, fx, k, ob[-1]["state"] if ob else EMPTY_STATE)) for k, pre, ob in zip(plan, pres, pobs)]
+    cases = [(k, pre, fams[i][1] if i in fams else gen_group(rng, fx, k, ob[-1]["state"] if ob else EMPTY_STATE))
+             for i, (k, pre, ob) in enumerate(zip(plan, pres, pobs))]
+    follow = {i: fams[i][2] for i in fams}
 
     def work(a):
         i, (k, pre, group) = a
         try:
             return run_case(ctx, binp, fx, pre, group, "%d" % i, kill_sample=(1 if ctx.quick() else 6), rng=__import__("random").Random(ctx.seed * 7919 + i),
-                            big=(k == "pull-big"))
+                            big=(k == "pull-big"), followups=follow.get(i))
         except UnknownCall as ex:
             return ("unknown-call", str(ex), k, pre, group)
         except Exception as ex:  # reported below
@@ -723,7 +786,7 @@ def run(ctx):
                 continue
             # every crash state is restarted normally; pulls (whose debris a restart may or may not clean) and every
             # third other case also with OLLAMA_NOPRUNE=1
-            modes = ["prune", "noprune"] if (any(o["op"] == "pull" for o in c.group) or ci % 3 == 0) else ["prune"]
+            modes = ["prune", "noprune"] if (any(o["op"] == "pull" for o in c.group) or ci % 4 == 0) else ["prune"]
             jobs += [(c, i, m) for i in range(len(c.states)) for m in modes]
 
         def work2(a):
